@@ -120,14 +120,16 @@ def theorems_of(module_file):
     return re.findall(r"^\s*theorem\s+([A-Za-z0-9_.']+)", txt, flags=re.M)
 
 
-def axiom_audit(pid, thms, module):
+def axiom_audit(pid, thms, modules):
     """#print axioms on every property theorem; returns (ok, {thm: [axioms]}, log)."""
     if not thms:
         return True, {}, ""
     os.makedirs(os.path.join(ROOT, ".cache", "audit"), exist_ok=True)
     f = os.path.join(ROOT, ".cache", "audit", f"Audit_{pid}.lean")
     with open(f, "w") as fh:
-        fh.write(f"import {module}\nopen Pm\n")
+        for m in modules:
+            fh.write(f"import {m}\n")
+        fh.write("open Pm\n")
         for t in thms:
             fh.write(f"#print axioms {t}\n")
     r = run(["lake", "env", "lean", f], cwd=LEAN)
@@ -224,6 +226,55 @@ def classify(recs, verdicts, pid, spec):
     return out
 
 
+def run_repro(tier, seed):
+    """C17: three separate processes (plain / different allocation history / different
+    environment size and stack) must print byte-identical digests (number of states, hash of the
+    rendered automaton, hash of the event log, hash of the exact match sequence)."""
+    outs = []
+    variants = [
+        ("plain", [], {}),
+        ("warmup", ["--warmup"], {}),
+        ("env", [], {"PM_PADDING": "x" * 4099, "RUST_MIN_STACK": "33554432", "MALLOC_ARENA_MAX": "1"}),
+    ]
+    for name, extra, envx in variants:
+        e = env()
+        e["VERIF_SEED"] = str(seed)
+        e.update(envx)
+        args = [HBIN, "cross.repro"] + (["--thorough"] if tier == "thorough" else []) + extra
+        r = subprocess.run(args, capture_output=True, text=True, env=e)
+        outs.append((name, r.returncode, r.stdout))
+    base = outs[0][2].splitlines()
+    problems = []
+    for name, rc, out in outs:
+        if rc != 0:
+            problems.append({"process": name, "what": f"exit status {rc}"})
+        lines = out.splitlines()
+        if lines != base:
+            diffs = [(i, a, b) for i, (a, b) in enumerate(zip(base, lines)) if a != b][:3]
+            problems.append({"process": name, "what": "digest differs from the plain process", "first_differences": diffs,
+                             "lengths": [len(base), len(lines)]})
+        for ln in lines:
+            if "differs" in ln or "failed" in ln:
+                problems.append({"process": name, "what": ln})
+                break
+    return base, problems
+
+
+def static_scan_nondeterminism():
+    """informational: std hash containers / addresses in non-test library code"""
+    pats = re.compile(r"std::collections::(HashMap|HashSet)|RandomState|DefaultHasher|as \*const|\{:p\}")
+    hits = []
+    for dp, _, fns in os.walk(os.path.join(REPO, "src")):
+        for fn in fns:
+            if fn.endswith(".rs"):
+                txt = open(os.path.join(dp, fn)).read()
+                body = txt.split("#[cfg(test)]")[0]
+                for ln, line in enumerate(body.splitlines(), 1):
+                    if pats.search(line):
+                        hits.append(f"{os.path.relpath(os.path.join(dp, fn), REPO)}:{ln}: {line.strip()[:100]}")
+    return hits
+
+
 def load_known_findings():
     p = os.path.join(ROOT, "known_findings.json")
     if not os.path.exists(p):
@@ -273,17 +324,29 @@ def check(pid, tier, seed):
     violations = []  # (kind, replay payload, has_input)
     log = []
 
-    # (1) proofs
+    # (1) proofs: the property's own file Props/<pid>.lean (if any) plus the theorems of other
+    # modules that the property's claim rests on (spec["theorems"] = [(module, [names…])…])
     module = f"PmVerif.Props.{pid}"
     prop_file = f"PmVerif/Props/{pid}.lean"
     have_props = os.path.exists(os.path.join(LEAN, prop_file))
-    targets = ["pmdriver"] + ([module] if have_props else [])
+    extra = spec.get("theorems", [])
+    modules = ([module] if have_props else []) + [m for m, _ in extra]
+    targets = ["pmdriver"] + modules
     ok_lean, lean_log = build_lean(targets)
     thms = theorems_of(prop_file) if have_props else []
     thms_q = [f"Pm.{t}" if not t.startswith("Pm.") else t for t in thms]
+    for m, names in extra:
+        mf = m.replace(".", "/") + ".lean"
+        avail = set(theorems_of(mf))
+        for n in names:
+            if n == "*":
+                thms_q += [f"Pm.{t}" for t in sorted(avail) if f"Pm.{t}" not in thms_q]
+            else:
+                thms_q.append(n if n.startswith("Pm.") else f"Pm.{n}")
+    thms = [t[3:] if t.startswith("Pm.") else t for t in thms_q]
     audit_ok, axioms, audit_log = (True, {}, "")
     if ok_lean and thms:
-        audit_ok, axioms, audit_log = axiom_audit(pid, thms_q, module)
+        audit_ok, axioms, audit_log = axiom_audit(pid, thms_q, modules)
     scan = source_scan()
     obligations = len(thms)
     discharged = len([t for t in thms_q if t in axioms and all(a in ALLOWED_AXIOMS for a in axioms[t])]) if ok_lean else 0
@@ -340,6 +403,20 @@ def check(pid, tier, seed):
             oracle_evals += len(cl["ok"]) + len(cl["oracle"]) + len(cl["known"])
             info["other_property_items"] = len(cl["other"])
 
+    repro_info = None
+    if spec.get("special") == "repro" and ok_h:
+        base, problems = run_repro(tier, seed)
+        repro_info = {"cases": len(base), "processes": 3, "problems": problems[:5],
+                      "static_scan": static_scan_nondeterminism()}
+        evaluations += 3 * len(base)
+        for ln in base[:: max(1, len(base) // 3)][:3]:
+            samples.append({"stage": "cross.repro", "record": ln, "verdict": "identical in 3 processes"})
+        for b in base:
+            distinct.add(hashlib.md5(b.encode()).digest())
+        for pr in problems:
+            violations.append(("repro", {"stage": "cross.repro", "record": json.dumps(pr)[:1500],
+                                         "verdict": "C17 " + pr["what"], "property": pid}, True))
+
     # known findings: a KNOWN line is printed by the driver only for listed signatures
     kf_lines = sorted(set(f"{sig} {what}" for sig, what in known_seen))
 
@@ -365,7 +442,7 @@ def check(pid, tier, seed):
             ],
             "theorems": thms,
             "axioms": axioms,
-            "partial": [t for t in thms if t.endswith("_partial")],
+            "partial": [t for t in thms if t.endswith("_partial")] + spec.get("targets", []),
             "evaluations": evaluations,
             "distinct_nontrivial": len(distinct),
             "rule": spec.get("rule", ""),
@@ -376,6 +453,7 @@ def check(pid, tier, seed):
             "source_drift": drift,
             "known_findings_seen": kf_lines,
             "explanation": spec.get("explanation", ""),
+            "repro": repro_info,
             "programs": evaluations,
             "disagreements_checked": evaluations,
         },
